@@ -386,6 +386,9 @@ func indexHeader(
 						return err
 					}
 
+					// A metadata-only record carries no content, so the entry keeps the size of its content record
+					h.Size = oldHdr.Size
+
 					newHdr = h
 
 					if err := metadataPersister.UpdateHeaderMetadata(context.Background(), converters.DBHeaderToConfigHeader(newHdr)); err != nil {
